@@ -2,7 +2,7 @@
 match, accumulate-not-overwrite, completeness test).  Attribution of values to call trees is NOT decided."""
 import ast
 
-from ..astq import Facts, compare_normal, conds, ends_in_jump, expand, facts_of, is_name, is_self_attr, kwarg, returns_of, returns_with_conds
+from ..astq import Facts, compare_normal, conds, ends_in_jump, expand, facts_of, lits, is_name, is_self_attr, kwarg, returns_of, returns_with_conds
 from ..cfg import CFG
 from ..core import order, AnalysisError, norm, walk_local
 from ..xform import query as Q
@@ -153,6 +153,6 @@ def run(repo, chk):
     mr = repo.func("probe.Probe._make_rule")
     fmr = facts_of(mr)
     imm = [c for t, c, n in fmr.starting("return Immediate(") if isinstance(n, ast.Return)]
-    ok = fmr.has("return Total(sel, close=self._make_emitter(sel))", exactly=["not ((sel.focus or probe_type == 'immediate') and probe_type != 'total')"]) \
+    ok = fmr.has("return Total(sel, close=self._make_emitter(sel))", exactly=lits("probe_type != 'total' and (sel.focus or probe_type == 'immediate')", False)) \
         and bool(imm) and all({"probe_type != 'total'", "probe_type == 'immediate' or sel.focus"} <= set(c) for c in imm) and ends_in_jump(mr.node.body)
     chk.ob("R07.5", "probe.Probe._make_rule:total-for-focus-free-or-forced", ok, mr.where, "a selector without focus, or probe_type='total', uses a Total accumulator whose close function is the emitter")
